@@ -127,6 +127,8 @@ def plan(tier: str) -> typing.List[Run]:
             runs.append(r._replace(ident="target-root"))
             if r.uid and r.gid:
                 runs.append(r._replace(ident="real-is-target"))
+            # the usual root login: the supplementary group list is exactly the primary group
+            runs.append(r._replace(ident="groups-are-own-gid"))
     for r in list(runs):
         if r.ident != "plain":
             continue
@@ -383,6 +385,8 @@ def execute(env: Env, r: Run, tag: str, token: str, kind: str = "unrelated") -> 
     if r.gid:
         over["setgid"] = "nosuchgroup_vf" if r.fault == "unknown-group" else tgroup
     pk: typing.Dict[str, typing.Any] = {"extra_groups": env.start_groups}
+    if r.ident == "groups-are-own-gid":
+        pk["extra_groups"] = [os.getgid()]
     if r.ident == "target-root":
         pk["group"] = 4242
     elif r.ident == "real-is-target":
@@ -563,7 +567,11 @@ def judge(env: Env, r: Run, o: Obs, token: str) -> typing.Tuple[
                 why="real/effective/saved/fs uid of the serving process")
         if o.status.get("Gid") != exp_gid:
             add("C19/end-state-gid", expected=exp_gid, observed=o.status.get("Gid"))
-        exp_groups = [] if (r.uid or r.gid) else sorted(
+        if r.ident == "groups-are-own-gid" and not (r.uid or r.gid):
+            exp_groups_start = [str(os.getgid())]
+        else:
+            exp_groups_start = None
+        exp_groups = [] if (r.uid or r.gid) else exp_groups_start if exp_groups_start is not None else sorted(
             (str(g) for g in env.start_groups) if not hasattr(o, "virt") else env.my_groups)
         if sorted(o.status.get("Groups", [])) != exp_groups:
             add("C19/end-state-groups", expected=exp_groups, observed=o.status.get("Groups"))
